@@ -246,8 +246,8 @@ theorem Views.cleanup {cfg : Cfg} {dist : Nat → Nat} (inj : Injective dist) {s
 
 /-! ### restart -/
 
-theorem keys_scanIndex_sublist (enc : Bool) (disk : List (Nat × File)) :
-    (keys (scanIndex enc disk)).Sublist (keys disk) := by
+theorem keys_scanIndex_sublist (cfg : Cfg) (disk : List (Nat × File)) :
+    (keys (scanIndex cfg disk)).Sublist (keys disk) := by
   induction disk with
   | nil => simp [scanIndex, keys]
   | cons x xs ih =>
@@ -307,11 +307,11 @@ theorem nodup_crashDisk {s : St} (h : (keys s.disk).Nodup) (torn : List (Nat × 
 
 theorem Views.restart {cfg : Cfg} {dist : Nat → Nat} (inj : Injective dist) {disk : List (Nat × File)}
     (hd : (keys disk).Nodup) (hist : Option Nat) (n : Nat) : Views dist (restart cfg dist disk hist n) := by
-  have hn : (keys (scanIndex cfg.encrypt disk)).Nodup := (keys_scanIndex_sublist _ _).nodup hd
+  have hn : (keys (scanIndex cfg disk)).Nodup := (keys_scanIndex_sublist _ _).nodup hd
   obtain ⟨hp, hdk⟩ := restart_byDist inj _ hn
   refine ⟨hp, hdk, hn, calcFarthest_ok dist _, ?_⟩
   simp only [SafeNet.Store.restart]
-  have : (keys (disk.filter (fun e => (scanType cfg.encrypt e.2).isSome))).Sublist (keys disk) := by
+  have : (keys (disk.filter (fun e => (scanType cfg e.2).isSome))).Sublist (keys disk) := by
     simp only [keys]; exact (List.filter_sublist).map _
   exact this.nodup hd
 
